@@ -642,6 +642,52 @@ func runC09(p *core.Program, r *core.Report) {
 			term := hasFact(fs, "d", ">=", "(len(key)-1)") || hasFact(fs, "d", "==", "(len(key)-1)") || hasFact(fs, "(d+1)", ">=", "len(key)") || hasFact(fs, "(d+1)", "==", "len(key)")
 			c.ob("AG2", fname, "terminal flag set only at the key's last byte", p.InstrPos(st), orderAt(fn, st.Block(), isProbe, isKey) == ordEQ && term && st.Val == ssa.Value(paramByName(fn, "isValid")),
 				"isValid must be stored only where key[d] == n.c and d is the last index, from the isValid parameter")
+			// the same branch stores the caller's value: Put overwrites the value of a key
+			// that is already there
+			okVal := false
+			for _, in := range st.Block().Instrs {
+				vs, ok := in.(*ssa.Store)
+				if !ok {
+					continue
+				}
+				fa, ok := vs.Addr.(*ssa.FieldAddr)
+				if !ok {
+					continue
+				}
+				inner, ok := fa.X.(*ssa.FieldAddr)
+				if ok && isFieldOf(inner, "node", "Item") && inner.X == base && fieldName(fa.X.Type(), fa.Field) == "val" && vs.Val == ssa.Value(paramByName(fn, "val")) {
+					okVal = true
+				}
+			}
+			c.ob("PV2", fname, "terminal branch stores the caller's value", p.InstrPos(st), okVal, "where put marks the key terminal it must also store the val parameter into that node: otherwise Put on an existing key keeps the old value")
+		}
+		// Keys and StartsWith hand out the shared queue: it is emptied before it is filled
+		for _, fn := range []*ssa.Function{fKeys, fSW} {
+			if fn == nil || ncollect == nil {
+				continue
+			}
+			isClear := func(in ssa.Instruction) bool {
+				ci, ok := in.(ssa.CallInstruction)
+				if !ok {
+					return false
+				}
+				if ci.Common().IsInvoke() {
+					return ci.Common().Method.Name() == "Clear" && isLoadOfField(ci.Common().Value, "Trie", "q")
+				}
+				return false
+			}
+			for _, call := range callsTo(fn, ncollect) {
+				cleared := !path.CanReachWithout(fn.Blocks[0].Instrs[0], func(i ssa.Instruction) bool { return i == call.(ssa.Instruction) }, isClear)
+				// the first instruction itself may be the load feeding Clear: also accept a dominating Clear
+				if !cleared {
+					for _, in := range path.Instrs(fn) {
+						if isClear(in) && (in.Block() == call.Block() || in.Block().Dominates(call.Block())) {
+							cleared = true
+						}
+					}
+				}
+				c.ob("PV2", p.FuncName(fn), "result queue emptied before collecting", p.InstrPos(call), cleared, "the keys are collected into the trie's queue without clearing it first: the result repeats what an earlier call reported")
+			}
 		}
 		for _, call := range callsTo(fPut, nput) {
 			a := call.Common().Args
